@@ -6,6 +6,7 @@ import itertools, json
 from ..vlib import leanlib, cbuild, judge
 from ..gen import g_dec
 from . import _cred_common as cc
+from . import _conf_check
 
 LEVEL = "proof"
 ANY = 0xFFFFFFFF
@@ -111,6 +112,8 @@ def run(ctx):
     drv = leanlib.driver(ctx)
     hreal = cc.build_real(ctx)
     htoy = cc.build_toy(ctx)
+    # "root is not exempt unless the daemon was built to allow it": conf->got_root_auth after the real option processing
+    _conf_check.run(ctx, "authorisation", {"rootauth"})
     if not drv or not hreal or not htoy:
         return
     ops = kern_ops(ctx.rng, ctx.tier == "thorough")
